@@ -254,7 +254,11 @@ def run(ctx):
         a, bb = ode_err.get(("bs", kind, 1e-8)), ode_err.get(("bs", kind, 1e-11))
         if a is not None and bb is not None and a > 1e-11 and bb > a * 0.5 and bb > 1e-10:
             ctx.violation("ode-tolerance-scaling:%s" % kind, "user ODE '%s' under BS: error %.3g at eps 1e-8 and %.3g at eps 1e-11 (does not shrink with the tolerance)" % (kind, a, bb), {"ode": ["bs", kind]})
+    # WHFast512 exists only in the AVX512 build: its part runs in a process of its own (mc/w512.py)
+    from .. import w512
+    n_w512 = w512.run(ctx, "C01")
     cov = {
+        "whfast512_cases": n_w512,
         "evaluations": len(cfgs) * 3 + len(ot), "distinct_nontrivial": ntested + nrel + len(ot),
         "rule": "every point of the documented option lattice (%d integrator settings) x test-particle setting {all active, type 0, type 1} x direction (quick: 4 of the 6 combinations) x system, at h=P/20, P/40, P/80 over two inner periods; "
                 "non-trivial = order or accuracy-class tests actually applied (error above the floor) + differential relations + user-ODE cases" % len(pts),
